@@ -116,6 +116,15 @@ def rule_r1(rep, program: Program):
     # ------------------------------------------------------------ Welford updates
     for cls, m2 in (("OnlineVarianceMetricAdapter", "sum_diff_sq"), ("OnlineCovarianceMetricAdapter", "sum_diff_outer")):
         f = program.method(cls, "update")
+        # every position seen enters the accumulators: no test (on the transition statistics or anything else) may
+        # keep an update from being applied
+        skips = [n for n in ast.walk(f.node) if isinstance(n, ast.If) or (isinstance(n, ast.Return) and n is not f.node.body[-1])]
+        r.inst({"class": cls, "update is unconditional": not skips})
+        if skips:
+            t0 = skips[0]
+            txt = norm(t0.test)[:80] if isinstance(t0, ast.If) else "an early return"
+            r.violate(PROP, f"{cls}.update:conditional:{txt[:40]}", f"{cls}.update applies the Welford update only under a condition (`{txt}`): positions of the other iterations are left out of the mean, the sum of squares and the count, so the metric is not the pooled (co)variance of all positions seen", node=t0, file=f.file)
+            continue
         it, mean, ssq, pos = "adapt_state['iter']", "adapt_state['mean']", f"adapt_state['{m2}']", "chain_state.pos"
         env = SymEnv({it: S("m0"), mean: S("mu0"), ssq: S("S0")})
         env.run(f.body_without_docstring())
